@@ -3,6 +3,7 @@
   state seen as a lookup function, list/ofList conversions.
 -/
 import IpldModel.Model.Schema
+import IpldModel.Lemmas.SchemaGenFlags
 namespace Ipld
 namespace Schema
 
@@ -379,18 +380,6 @@ theorem memberByKey_ideal (lvl : Level) (ms : List Member) (k : Bytes) :
   · rfl
   · simp only [memberByKey, ideal_discFallback, Bool.false_eq_true, if_false]
     cases ms.find? (fun m => m.disc == k) <;> rfl
-
-theorem mapAppend_fresh (acc : List (Bytes × TL)) (k : Bytes) (v : TL)
-    (h : acc.any (fun p => p.1 == k) = false) : mapAppend acc k v = acc ++ [(k, v)] := by
-  unfold mapAppend
-  congr 1
-  simp only [List.any_eq_false, beq_iff_eq] at h
-  have : ∀ e ∈ acc, (if (e.1 == k) = true then (e.1, v) else e) = e := by
-    intro e he
-    have := h e he
-    simp [this]
-  rw [List.map_congr_left this]
-  simp
 
 /-! ## Conformance: first facts -/
 
